@@ -88,7 +88,7 @@ where
             }
         });
         assert!(addr(guard.stats().current_chunk().unwrap().bump_position()) == pos_after_g, "C14/C03: a scope opened through the guard was not undone");
-        kani::cover!(inner != 0, "allocated inside a scope inside the claim");
+        kani::cover!(inner != 0, "[room] allocated inside a scope inside the claim");
         kani::cover!(guard.stats().count() == 2, "[b1] the guard created a second chunk");
         g_addr = addr(g);
         g_val = iv;
